@@ -9,6 +9,7 @@
 -/
 import OpmVerif.Proofs.FieldProps
 import OpmVerif.Proofs.FieldPropsIndep
+import OpmVerif.Proofs.FieldPropsOperR
 
 namespace OpmVerif.Props.C12
 open OpmVerif.FieldProps
@@ -144,6 +145,43 @@ theorem inactive_independence_partial {α : Type} [RealOps α] (D : Dims) (hD : 
     smap (fun x => cellAt x (rank t.act g)) t.ints = smap (fun x => cellAt x (rank t'.act g)) t'.ints :=
   runProg_indep_impl D hD T P hP A A' hA hA' t t' h h' g hg hact hact'
 
+/-- **`inactive_independence`, full shape: whole programs of any length WITH OPERATER**, any two ACTNUMs.
+If the same program is accepted under `A` and `A'`, then at every global cell `g` active at the end of
+both runs, what `init_get<double>(kw)` / `init_get<int>(kw)` returns (the stored array, or the freshly
+initialised one when the keyword has not been stored — the only way any reader, including
+`get_double`/`get_int`, sees the store) has the same value and status, for every keyword of the tables.
+(The stores themselves may differ: OPERATER creates its source array only when the region has an
+active cell; see the example below.)
+
+`TablesOK T` is a hypothesis on the keyword tables only: no keyword called `__MULT__…`, every double
+keyword declared once, ACTNUM an integer keyword with default 1.  It is decidable
+(`tables_hypothesis_decidable`) and the driver evaluates it on the tables read from the real
+`keyword_info` on every correspondence case. -/
+theorem inactive_independence {α : Type} [RealOps α] (D : Dims) (hD : DPos D) (T : Tables α) (hT : TablesOK T)
+    (P : Prog α) (A A' : List Bool) (hA : A.length = D.size) (hA' : A'.length = D.size) (t t' : St α)
+    (h : runProg .impl D T (initSt A) P = some t) (h' : runProg .impl D T (initSt A') P = some t')
+    (g : Nat) (hg : g < D.size) (hact : isActive t.act g = true) (hact' : isActive t'.act g = true) :
+    (∀ kw info, sget T.dbl kw = some info →
+      cellAt (getD .impl D t kw info).2 (rank t.act g) = cellAt (getD .impl D t' kw info).2 (rank t'.act g)) ∧
+    (∀ kw init, sget T.int kw = some init →
+      cellAt (getI .impl D t kw init).2 (rank t.act g) = cellAt (getI .impl D t' kw init).2 (rank t'.act g)) :=
+  runProg_indep_impl_views D hD T hT P A A' hA hA' t t' h h' g hg hact hact'
+
+/-- The hypothesis of `inactive_independence` on the tables follows from the Boolean check
+`tablesOkB` the driver runs on the real tables of every case. -/
+theorem tables_hypothesis_decidable {α : Type} [RealOps α] (T : Tables α) (h : tablesOkB T = true) : TablesOK T :=
+  tablesOK_of_check T h
+
+/-- The reason behind it, OPERATER included: the one-cell projection of an accepted reference run
+stays below (`VLe`: same stored cells; extra arrays hold the freshly initialised cell) the state of
+the normalised one-cell run `runProg1N`, a function of the program alone that sees neither the
+ACTNUM nor any other cell and needs no oracle. -/
+theorem active_cell_view_evolves_alone {α : Type} [RealOps α] (g : Nat) (D : Dims) (hD : DPos D) (T : Tables α)
+    (hT : TablesOK T) (hg : g < D.size) (s0 : St α) (hw : WF D s0) (a0 : St1 α) (hv : VLe T (proj g s0) a0)
+    (P : Prog α) (s : St α) (h : runProg .ref D T s0 P = some s) (hact : isActive s.act g = true) :
+    ∃ z, runProg1N g D T a0 P = some z ∧ VLe T (proj g s) z :=
+  runProg_sim g D hD T hT hg s0 hw a0 hv P s h hact
+
 /-- The reason behind it: in an accepted reference run the content of an active cell evolves by
 a one-cell semantics (`runProg1`) that sees neither the ACTNUM nor any other cell. -/
 theorem active_cell_evolves_alone {α : Type} [RealOps α] (g : Nat) (D : Dims) (hD : DPos D) (T : Tables α)
@@ -258,5 +296,30 @@ example :
 -- the hypothesis of `inactive_independence_partial` is satisfiable: the sample program (with a top keyword)
 example : sampleP.NoOperR := by
   simp [Prog.NoOperR, sampleP, Kw.noOperR]
+
+/-! ### OPERATER: the stored arrays depend on the ACTNUM, the views do not.  1×1×2 grid, OPERNUM = 1, 2;
+`OPERATER NTG 2 MULTX MULTZ 3` (region 2 of OPERNUM, source MULTZ not stored yet).  With both cells
+active the region has an active cell and MULTZ is created; with the lower cell inactive the record is
+skipped and MULTZ is never stored.  The upper cell (active in both) shows NTG = default 1 and
+MULTZ = default 1 in both runs. -/
+
+def opD : Dims := ⟨1, 1, 2⟩
+def opT : Tables Int :=
+  ⟨[("NTG", ⟨some 1, false, false, false, 1, 0, false⟩), ("MULTZ", ⟨some 1, true, false, true, 1, 0, false⟩)],
+   [("ACTNUM", some 1), ("OPERNUM", some 1)]⟩
+def opP : Prog Int :=
+  { grid := [.scalar .equal [⟨"OPERNUM", 2, ⟨none, none, none, none, some 2, some 2⟩⟩],
+             .operateR [⟨"NTG", 2, "MULTX", "MULTZ", 3, 0, "OPERNUM"⟩]],
+    edit := [], props := [], regions := [], solution := [] }
+
+example : TablesOK opT := tablesOK_of_check opT (by decide +kernel)
+example : TablesOK sampleT := tablesOK_of_check sampleT (by decide +kernel)
+
+example :
+    (runProg .impl opD opT (initSt [true, true]) opP).map (fun t => t.dbls) =
+      some [("NTG", [⟨.validDefault, 1⟩, ⟨.validDefault, 3⟩]), ("MULTZ", [⟨.validDefault, 1⟩, ⟨.validDefault, 1⟩])] ∧
+    (runProg .impl opD opT (initSt [true, false]) opP).map (fun t => t.dbls) =
+      some [("NTG", [⟨.validDefault, 1⟩])] := by
+  decide +kernel
 
 end OpmVerif.Props.C12
